@@ -1001,7 +1001,7 @@ let () = register "c09" (fun line ->
   | "stop-halfclosed-silent" -> report "" (run ([LServeBegin; LBindOk; LAccept; LStop]))
   | "stop-before-start" -> report "" (run [LStop])
   | "stop-hc-probing" -> "stop=ok goroutines=ok"
-  | "stop-active" | "stop-backend-down" | "stop-silent-backend" | "stop-after-conn-loss" | "stop-during-connect" | "stop-stubborn-backend" -> report "" (run ([LServeBegin; LBindOk] @ accepts @ [LStop]))
+  | "stop-active" | "stop-backend-down" | "stop-silent-backend" | "stop-after-conn-loss" | "stop-during-connect" | "stop-stubborn-backend" | "stop-during-redirect" -> report "" (run ([LServeBegin; LBindOk] @ accepts @ [LStop]))
   | "accept-emfile" ->
     (* accept fails temporarily a few times; the connection that was waiting is then served *)
     let s = run [LServeBegin; LBindOk; LAcceptTemp; LAcceptTemp; LAcceptTemp; LAccept] in
